@@ -90,7 +90,7 @@ package types
 // Shape of type trees (assumed of what the parser builds, re-established by every constructor):
 // finite (size decreases towards the leaves) and without nil children.
 
-//@ spec size(t SessionType) int
+//@ macro size(t SessionType) int = born(t)
 //@ spec shapeOK(t SessionType) bool = t != nil && size(t) >= 0 &&
 //@    (is(t, SendType) ==> child(SendType(t).Left, size(t)) && child(SendType(t).Right, size(t))) &&
 //@    (is(t, ReceiveType) ==> child(ReceiveType(t).Left, size(t)) && child(ReceiveType(t).Right, size(t))) &&
@@ -627,3 +627,10 @@ package types
 //@   ensures[C09] C09.unfoldReady: orig != nil && ready(orig, dom(labelledTypesEnv), vals(labelledTypesEnv)) && readyEnv(dom(labelledTypesEnv), vals(labelledTypesEnv)) ==> ready(result, dom(labelledTypesEnv), vals(labelledTypesEnv))
 //@   ensures[C09] C09.unfoldNil: orig == nil ==> result == nil
 //@   decreases[C09] rankTy(orig, dom(labelledTypesEnv), vals(labelledTypesEnv))
+
+//@ contract FetchSelectBranch
+//@   ensures C07.fetchFound: result1 == (exists k int :: 0 <= k && k < len(branches) && branches[k].Label == label)
+//@   ensures C07.fetchAt: result1 ==> (exists k int :: 0 <= k && k < len(branches) && result0 == branches[k].SessionType && branches[k].Label == label && (forall j int :: 0 <= j && j < k ==> branches[j].Label != label))
+//@   ensures C07.fetchNone: !result1 ==> result0 == nil
+//@   loop 1 invariant forall j int :: 0 <= j && j <= idx ==> branches[j].Label != label
+//@   pure
